@@ -518,6 +518,17 @@ impl Story {
     }
 
     pub(crate) fn next_content(&mut self) -> Result<(), StoryError> {
+        // One pass for every function or thread that runs out of content at the
+        // same moment. A loop and not recursion: the number of threads that end
+        // together is up to the story and must not overflow the native stack.
+        while self.next_content_pass()? {}
+
+        Ok(())
+    }
+
+    // Returns true when a function or thread was popped and the flow still has
+    // to step past the point where it last called out.
+    fn next_content_pass(&mut self) -> Result<bool, StoryError> {
         // Setting previousContentObject is critical for
         // VisitChangedContainersDueToDivert
         let cp = self.get_state().get_current_pointer();
@@ -536,7 +547,7 @@ impl Story {
 
             // Diverted location has valid content?
             if !self.get_state().get_current_pointer().is_null() {
-                return Ok(());
+                return Ok(false);
             }
 
             // Otherwise, if diverted location doesn't have valid content,
@@ -595,11 +606,11 @@ impl Story {
 
             // Step past the point where we last called out
             if did_pop && !self.get_state().get_current_pointer().is_null() {
-                self.next_content()?;
+                return Ok(true);
             }
         }
 
-        Ok(())
+        Ok(false)
     }
 
     pub(crate) fn increment_content_pointer(&self) -> bool {
